@@ -755,7 +755,7 @@ func (ctx Ctx) callExpr(s *ast.CallExpr) coq.Expr {
 	if isBuiltin("uint32") {
 		return ctx.integerConversion(s, s.Args[0], 32)
 	}
-	if isBuiltin("uint8") {
+	if isBuiltin("uint8") || isBuiltin("byte") {
 		return ctx.integerConversion(s, s.Args[0], 8)
 	}
 	if isBuiltin("panic") {
